@@ -140,6 +140,19 @@ func chunksField(chunks [][]byte) string {
 	return strings.Join(cs, ",")
 }
 
+// strutilConvertMeta: the normal form matchBind gives a bound sequence (meta runes as ESC-prefixed keys)
+func strutilConvertMeta(seq string) string {
+	var out []rune
+	for _, c := range seq {
+		if c > 0x7f && c <= 0xff {
+			out = append(out, 0x1b, c&0x7f)
+		} else {
+			out = append(out, c)
+		}
+	}
+	return string(out)
+}
+
 func init() {
 	dispatch := func(local bool) func(r *rand.Rand) (string, string, string) {
 		return func(r *rand.Rand) (string, string, string) {
@@ -160,6 +173,7 @@ func init() {
 				line = fmt.Sprintf("main %s %s %s %s", b(emacs), strings.Join(dispRegs[:5], ","), tableField(tbl), chunksField(chunks))
 			}
 			classes := map[string]bool{}
+			var propEvents [][2]string
 			res := guard(func() string {
 				keys := new(core.Keys)
 				eng, cfg := keymap.NewEngine(keys, new(core.Iterations))
@@ -221,6 +235,38 @@ func init() {
 						c = 1
 					}
 					evs = append(evs, fmt.Sprintf("%s/%d/%d/%s", bind.Action, p, c, natsR(keys.Caller())))
+					// C03, decided on the real code alone: a command that is selected is bound to a sequence that
+					// starts with the first key consumed ("never a command bound to a different sequence")
+					if !prefix && bind.Action != "" && bind.Action != "emacs-editing-mode" && len(keys.Caller()) > 0 {
+						first := string(keys.Caller()[:1])
+						ok := false
+						for seq, b := range tbl {
+							norm := strutilConvertMeta(seq)
+							if b.Action == bind.Action && b.Macro == bind.Macro && strings.HasPrefix(norm, first) {
+								ok = true
+							}
+						}
+						// the multibyte fallback of the main keymaps inserts an unbound character
+						if !ok && !(bind.Action == "self-insert" && !local && keys.Caller()[0] >= 0x80) {
+							propEvents = append(propEvents, [2]string{"runs-command-bound-to-a-different-sequence", fmt.Sprintf("keys %q selected %q, which no bind starting with %q has", string(keys.Caller()), bind.Action, first)})
+						}
+					}
+				}
+				// ... and at the end of the input no complete key is left undispatched: only the keys of a pending
+				// proper prefix may remain in the buffer
+				// (main keymaps only: a local keymap hands the keys it does not match back to the main one)
+				if n := len(evs); !local && n > 0 && evs[n-1] == "EOF" {
+					left := 0
+					for {
+						if _, empty := core.PopKey(keys); empty {
+							break
+						}
+						left++
+					}
+					lastWasPrefix := n >= 2 && strings.Contains(evs[n-2], "/1/")
+					if left > 0 && !lastWasPrefix {
+						propEvents = append(propEvents, [2]string{"keys-left-undispatched-at-end-of-input", fmt.Sprintf("%d byte(s) are still buffered when the input ends although the last dispatch was not waiting for more keys", left)})
+					}
 				}
 				if len(evs) == limit && evs[limit-1] != "EOF" {
 					evs = append(evs, "FUEL")
@@ -235,6 +281,13 @@ func init() {
 			class := strings.Join(cl, "+")
 			if class == "" {
 				class = "trivial"
+			}
+			for _, pe := range propEvents {
+				where := "main"
+				if local {
+					where = "local"
+				}
+				reportProp(pe[0]+"/"+where, pe[1], line)
 			}
 			return line, res, class
 		}
